@@ -253,6 +253,9 @@ VP_HARNESS(h_enc_reset)
 #ifndef PMAX
 #define PMAX MAXB  // the earlier call's max frame size
 #endif
+#ifndef PRIOR2
+#define PRIOR2 0  // 1: the earlier call is a two-packet batch whose second packet is invalid (payload type byte 0)
+#endif
 #ifndef CFG
 #define CFG 0   // configuration change between the two calls: 1 device id, 2 stream id, 3 restart, 4 both ids
 #endif
@@ -277,8 +280,23 @@ VP_HARNESS(h_enc_twice)
         p0->setTimestamp(vp_u64());
         p0->setCommonFlags(vp_u8());
         DataContext c0{0, PMAX};
+#if PRIOR2
+        // the earlier call is a batch through the iterator overload whose second packet has payload type byte 0 (a packet
+        // that reports !isValid()): whatever that call returns, it must not leave anything behind for the next call
+        static uint8_t junk2[8];
+        vp_bytes(junk2, 8);
+        Packet* p1 = new Packet;
+        p1->setPayload(Payload(PayloadType(static_cast<CmpHeader::MessageType>(PT0), 0), junk2, 8));
+        p1->setVersion(p0->getVersion());
+        std::vector<Packet>* v0 = new std::vector<Packet>;
+        v0->push_back(*p0);
+        v0->push_back(*p1);
+        Frames* f0 = new Frames(e->encode(v0->begin(), v0->end(), c0));
+        (void)f0;
+#else
         Frames* f0 = new Frames(e->encode(*p0, c0));
         vp_assert(f0->size() >= 1, "C10: the earlier call produced frames");
+#endif
     }
 #if CFG == 1
     // configuration change between the calls (C09: "any history of configuration changes and encode calls")
